@@ -31,7 +31,12 @@ pub fn main_with(prop: &str, run: fn(&Config, &mut Session)) {
         }
     }
     // Panics are observed outcomes; keep stderr quiet.
-    std::panic::set_hook(Box::new(|_| {}));
+    let show = std::env::var_os("FV_PANIC_LOC").is_some();
+    std::panic::set_hook(Box::new(move |info| {
+        if show {
+            eprintln!("PANIC at {:?}\n{}", info.location().map(|l| format!("{}:{}", l.file(), l.line())), std::backtrace::Backtrace::force_capture());
+        }
+    }));
     let start = std::time::Instant::now();
     let mut s = Session::new(&cfg.prop);
     run(&cfg, &mut s);
